@@ -364,6 +364,25 @@ def run(ctx, R, tier):
     R.check(bad is None, "C12-R5", "_pyroInvoke|callers-annotations-read-only", "the calling thread's current_context.annotations dict is only read by the call path", f.loc(bad[0]) if bad else f.loc(),
             ("_pyroInvoke takes the thread's own request-annotation dict and %s: what this call adds stays in the caller's context and is sent with every later call of that thread, "
              "to any object on any server" % bad[1]) if bad else "")
+    # ... and nobody else on the client side writes into it either (a Proxy subclass of the compatibility layer, a tool): request annotations a proxy wants to add
+    # for its own calls belong in a copy
+    offenders = []
+    for g in p.functions.values():
+        if isinstance(g.node, ast.Lambda) or g.module.name in ("Pyro5.server", "Pyro5.callcontext"):
+            continue
+        for x in walk_no_nested(g.node):
+            tgt = None
+            if isinstance(x, ast.Call) and isinstance(x.func, ast.Attribute) and x.func.attr in WRITES:
+                tgt = x.func.value
+            elif isinstance(x, (ast.Assign, ast.AugAssign, ast.Delete)):
+                for t in (x.targets if hasattr(x, "targets") else [x.target]):
+                    if isinstance(t, ast.Subscript):
+                        tgt = t.value
+            if tgt is not None and isinstance(tgt, ast.Attribute) and tgt.attr == "annotations" and "current_context" in unparse(tgt.value):
+                offenders.append((g, x))
+    R.check(not offenders, "C12-R5", "client-side|callers-annotations-never-edited-in-place", "no client-side code edits current_context.annotations in place", offenders[0][0].loc(offenders[0][1]) if offenders else "Pyro5/",
+            ("`%s` in %s writes into the calling thread's request annotations: what one proxy adds for its own call is sent with every later call of the thread, through any proxy, to any "
+             "server (and a server method that makes such a nested call afterwards reads annotations its own request never had)" % (unparse(offenders[0][1], 70), offenders[0][0].qualname)) if offenders else "")
     recv_calls = ctx.calls_to(f, "Pyro5.protocol.recv_stub")
     if len(recv_calls) != 1:
         raise AnalysisError("_pyroInvoke: expected exactly one recv_stub call")
